@@ -35,6 +35,13 @@ func (eval Evaluator) Average(ctIn *rlwe.Ciphertext, logBatchSize int, opOut *rl
 
 	level := utils.Min(ctIn.Level(), opOut.Level())
 
+	// The result is a ciphertext at the common level that describes itself as the input does.
+	opOut.Resize(opOut.Degree(), level)
+
+	if ctIn != opOut {
+		*opOut.MetaData = *ctIn.MetaData
+	}
+
 	n := 1 << (ctIn.LogDimensions.Cols - logBatchSize)
 
 	// pre-multiplication by n^-1
